@@ -1434,6 +1434,22 @@ def callees_transitive(unit, node, depth=2, _seen=None):
     return out
 
 
+def walk_inl(unit, node, depth=2, _seen=None, exclude=()):
+    """Like walk(), but also descends into the bodies of same-crate functions called below `node` (up to `depth` levels): a rule that
+    looks for a construct inside an anchor function keeps finding it after the construct was extracted into a private helper."""
+    _seen = _seen if _seen is not None else set(norm_path(e) for e in exclude)
+    for x in walk(node):
+        yield x
+        if depth > 0 and x.get("k") in ("call", "mcall"):
+            p_ = norm_path(x.get("p") or callee(x) or "")
+            if p_ and p_.startswith(unit.crate + "::") and p_ not in _seen:
+                cal = unit.norm.get(p_)
+                if cal and "hir" in cal and cal.get("dk") != "Closure":
+                    _seen.add(p_)
+                    for y in walk_inl(unit, fn_body(cal), depth - 1, _seen):
+                        yield y
+
+
 class SubCheck:
     """Run another property's rule module inside a check, keeping only some of its rules under a new rule id."""
 
